@@ -152,7 +152,8 @@ struct X {
       case 1: { // a reply type that is never part of this exchange: PUBACK for a QoS 2 exchange, PUBREC for a QoS 1 exchange
                 // (the QoS of the exchange that uses this identifier: from the packet if the broker has it, else from the oldest open request)
                 uint8_t q = 1; for (int i = 0; i < nreq; i++) if (!w.ops[reqs[i].op].done) { q = reqs[i].qos; break; }
-                for (int i = 0; i < w.npk; i++) if (w.pk[i].epoch == w.epoch && w.pk[i].type == ref::PUBLISH && w.pk[i].pid == pid) q = w.pk[i].qos;
+                // (packets of exchanges that are already over do not count: their identifier may belong to a new request by now)
+                for (int i = 0; i < w.npk; i++) if (w.pk[i].epoch == w.epoch && w.pk[i].type == ref::PUBLISH && w.pk[i].pid == pid) { int rq = req_of(w.pk[i]); if (rq >= 0 && w.ops[reqs[rq].op].done) continue; q = w.pk[i].qos; }
                 uint8_t wrong = q == 2 ? ref::PUBACK : ref::PUBREC; log_ack(wrong, pid, 0, false, false); w.ack(wrong, pid, 0, 1); break; }
       case 2: { uint8_t rc = vk_sym_u8(); vk_assume(!ref::rc_listed(t, rc)); log_ack(t, pid, rc, false, true); w.ack(t, pid, rc, 1); break; }           // inadmissible reason code
       default: { log_ack(t, pid, 0, false, true); ref::wr o = w.outw(); uint8_t b[5] = {(uint8_t)(pid >> 8), (uint8_t)pid, 0, 0x7F, 0x1F};            // property length beyond the packet
